@@ -8,6 +8,7 @@ HERE = os.path.dirname(os.path.dirname(os.path.abspath(__file__)))
 # pid -> (technique, level text, level_note, design_ref)
 CLAIMS = {}
 NOT_YET = {}
+ADDED = {}
 
 
 def claim(pid, technique, text, note):
@@ -23,6 +24,8 @@ for p in props:
     pid = p["id"]
     if pid in CLAIMS and os.path.exists(os.path.join(HERE, "rules", pid.lower() + ".py")):
         tech, text, note = CLAIMS[pid]
+        if ADDED.get(pid):
+            text = text + " " + ADDED[pid]
         checks.append({
             "property_id": pid,
             "quick_cmd": f"./check {pid} --tier quick",
